@@ -6,7 +6,7 @@ export VERIF_EVIDENCE_DIR=$PWD/.cache/evidence-seedtest
 out=seeded/REGRESSION.txt; : > $out.tmp
 git -C /repo diff --quiet || { echo "/repo not clean"; exit 2; }
 for d in seeded/*/; do
-  name=$(basename $d); prop=$(python3 -c "import json;print(json.load(open('$d/meta.json'))['property'])")
+  name=$(basename $d); prop=$(python3 -c "import json;m=json.load(open('$d/meta.json'));print(m.get('regress_check', m['property']))")   # (one change breaks a neighbouring property's statement: see DESIGN 11.14)
   git -C /repo apply $PWD/$d/patch.diff || { echo "$name $prop APPLY-FAILED" >> $out.tmp; continue; }
   o=$(./check $prop --tier quick 2>&1); rc=$?
   git -C /repo checkout -- .
